@@ -96,7 +96,7 @@ def eddm(ctx):
     n = A("_samples_since_reset") + const(1)
     # every statistic store of the error block is under `not indicator`
     blk = [x for x in tr.stores() if x.attr in ("_n_errors", "_index_error_curr", "_index_error_last", "_dist_mean", "_dist_std")]
-    ctx.ob("ROLE", site, "error block stores exist", len(blk) >= 6, "found %d" % len(blk))
+    ctx.anchor(site, "error block stores exist", len(blk) >= 6, "found %d" % len(blk))
     for x in blk:
         ctx.ob("POLARITY", site, "store %s happens only for a misclassified sample" % x.attr, q.has_guard(x, err), "", x)
     last = {}
@@ -174,7 +174,7 @@ def stepd(ctx):
             vals[x.name] = x.value
     ctx.require(len(vals) == 3, "STEPD.update reads its three accuracies")
     ts = tr.stores("_test_statistic")
-    ctx.ob("ROLE", site, "test statistic stored", len(ts) == 1, "")
+    ctx.anchor(site, "test statistic stored", len(ts) == 1, "")
     sym = {k: atom(("sym", k)) for k in vals}
     if ts:
         v = ts[0].value
